@@ -374,26 +374,64 @@ def positive_const(v):
 
 
 def check_gains(w, rep):
+    """The gain arguments of the attitude and rate loops, resolved from the call sites in update_controller through local
+    names, tuple assignments, `self.X` and class-level constants to their literal arrays: every entry is non-negative."""
     sf = w.fe.get(SCRIPT)
     fn = w.fe.find_def(SCRIPT, "Simulator.update_controller")
-    want = {"k_p_att", "kp", "ki", "kd", "i_max"}
+    cls = w.fe.find_def(SCRIPT, "Simulator")
+
+    def assigned(name, body_owner):
+        """last `name = value` (also through a tuple target) among the statements of body_owner"""
+        found = None
+        for st in ast.walk(body_owner):
+            if isinstance(st, ast.Assign) and len(st.targets) == 1:
+                t = st.targets[0]
+                if isinstance(t, ast.Name) and t.id == name:
+                    found = st.value
+                elif isinstance(t, (ast.Tuple, ast.List)) and isinstance(st.value, (ast.Tuple, ast.List)) and len(t.elts) == len(st.value.elts):
+                    for e, v in zip(t.elts, st.value.elts):
+                        if isinstance(e, ast.Name) and e.id == name:
+                            found = v
+        return found
+
+    def resolve(e, depth=0):
+        if depth > 6 or e is None:
+            return e
+        if isinstance(e, ast.Name):
+            v = assigned(e.id, fn)
+            return resolve(v, depth + 1) if v is not None else e
+        if isinstance(e, ast.Attribute) and isinstance(e.value, ast.Name) and e.value.id == "self":
+            for st in cls.body:            # class-level constant
+                if isinstance(st, ast.Assign) and len(st.targets) == 1 and isinstance(st.targets[0], ast.Name) and st.targets[0].id == e.attr:
+                    return resolve(st.value, depth + 1)
+            for st in ast.walk(cls):       # self.X = ... (one binding)
+                if isinstance(st, ast.Assign) and len(st.targets) == 1 and ast.unparse(st.targets[0]) == "self." + e.attr:
+                    return resolve(st.value, depth + 1)
+        return e
+
+    def literal(v):
+        if isinstance(v, ast.Call) and v.args and isinstance(v.args[0], (ast.List, ast.Tuple)):
+            v = v.args[0]
+        try:
+            x = ast.literal_eval(v)
+        except Exception:
+            return None
+        return [float(t) for t in x] if isinstance(x, (list, tuple)) else [float(x)] if isinstance(x, (int, float)) else None
+    wanted = {"attitude_rate_control": {0: "kp", 1: "ki", 2: "kd", 4: "i_max"}, "attitude_control": {0: "k_p_att"}, "so3_attitude_control": {0: "k_p_att"}}
     seen = set()
-    for st in ast.walk(fn):
-        if isinstance(st, ast.Assign) and len(st.targets) == 1 and isinstance(st.targets[0], ast.Name) and st.targets[0].id in want:
-            nm = st.targets[0].id
-            vals = None
-            v = st.value
-            if isinstance(v, ast.Call) and v.args and isinstance(v.args[0], (ast.List, ast.Tuple)):
-                try:
-                    vals = [ast.literal_eval(e) for e in v.args[0].elts]
-                except Exception:
-                    vals = None
-            if vals is None:
-                rep.incomplete("C17.gains", "gain %s is a literal array" % nm, "cannot read the gain values", where=(SCRIPT, st.lineno))
-                continue
-            seen.add(nm)
-            rep.check("C17.gains", "gain %s is non-negative" % nm, all(x >= 0 for x in vals), "negative feedback gain in %s = %s (positive feedback)" % (nm, vals), where=(SCRIPT, st.lineno), fact={"values": vals})
-    rep.check("C17.gains", "attitude and rate gains are defined in update_controller", {"k_p_att", "kp", "kd"} <= seen, "missing gains %s" % (want - seen), where=(SCRIPT, fn.lineno), nontrivial=False)
+    for c in ast.walk(fn):
+        if isinstance(c, ast.Call) and isinstance(c.func, ast.Subscript) and ast.unparse(c.func.value) == "self.eqs" and isinstance(c.func.slice, ast.Constant) and c.func.slice.value in wanted:
+            for idx, nm in wanted[c.func.slice.value].items():
+                if idx >= len(c.args):
+                    continue
+                inst = "gain %s (argument %d of %s) is non-negative" % (nm, idx, c.func.slice.value)
+                vals = literal(resolve(c.args[idx]))
+                if vals is None:
+                    rep.incomplete("C17.gains", inst, "cannot read the gain values of `%s`" % ast.unparse(c.args[idx]), where=(SCRIPT, c.lineno))
+                    continue
+                seen.add(nm)
+                rep.check("C17.gains", inst, all(x >= 0 for x in vals), "negative feedback gain in %s = %s (positive feedback)" % (nm, vals), where=(SCRIPT, c.lineno), fact={"values": vals})
+    rep.check("C17.gains", "attitude and rate gains reach the loops from update_controller", {"k_p_att", "kp", "kd"} <= seen, "gains not found at the call sites: %s" % ({"k_p_att", "kp", "kd"} - seen), where=(SCRIPT, fn.lineno), nontrivial=False)
 
 
 def run(w, rep, tier):
